@@ -12,9 +12,11 @@ import (
 	"fmt"
 	"os"
 	"reflect"
+	"strings"
 	"testing"
 
 	"github.com/buildkite/go-pipeline/ordered"
+	"gopkg.in/yaml.v3"
 )
 
 type pair struct {
@@ -76,9 +78,9 @@ func (m model) replace(old, nw string, v int) model {
 }
 
 type op struct {
-	kind    int // 0 set, 1 delete, 2 replace
-	a, b    string
-	v       int
+	kind int // 0 set, 1 delete, 2 replace
+	a, b string
+	v    int
 }
 
 var keys = []string{"x", "y", "z"}
@@ -266,6 +268,63 @@ func TestC05(t *testing.T) {
 		}
 		if failures > 10 {
 			break
+		}
+	}
+	// the encodings against the model itself (not against another ordered map), over keys that
+	// look like other YAML / JSON types or like syntax: JSON text exactly, YAML at node level
+	// (every key a string scalar with the key's text, in order)
+	tricky := []string{"plain", "", "<<", "0x10", "1.50", "1e3", "1_000", "+1", "True", "yes", "null", "~", "a b", "k: v", "- x", "#c", "é", "\"q\"", "{", "[", "*a", "&a", "!t", "|", ">", "%", "@", "`"}
+	for rot := 0; rot < len(tricky); rot++ {
+		o := ordered.NewMap[string, int](0)
+		var m model
+		for i := range tricky {
+			k := tricky[(i+rot)%len(tricky)]
+			o.Set(k, i)
+			m = m.set(k, i)
+		}
+		dk := tricky[(rot*7)%len(tricky)]
+		o.Delete(dk)
+		m = m.del(dk)
+		cases++
+		var want strings.Builder
+		want.WriteString("{")
+		for i, p := range m {
+			if i > 0 {
+				want.WriteString(",")
+			}
+			kb, _ := json.Marshal(p.k)
+			fmt.Fprintf(&want, "%s:%d", kb, p.v)
+		}
+		want.WriteString("}")
+		if jb, err := json.Marshal(o); err != nil || string(jb) != want.String() {
+			failures++
+			t.Errorf("JSON encoding %s (err %v), the model gives %s", jb, err, want.String())
+		}
+		yb, err := yaml.Marshal(o)
+		if err != nil {
+			failures++
+			t.Errorf("YAML encoding: %v", err)
+			continue
+		}
+		var doc yaml.Node
+		if err := yaml.Unmarshal(yb, &doc); err != nil || len(doc.Content) != 1 || doc.Content[0].Kind != yaml.MappingNode {
+			failures++
+			t.Errorf("YAML output is not one mapping: %v\n%s", err, yb)
+			continue
+		}
+		c := doc.Content[0].Content
+		if len(c) != 2*len(m) {
+			failures++
+			t.Errorf("YAML output has %d key/value nodes, the model %d pairs\n%s", len(c), len(m), yb)
+			continue
+		}
+		for i, p := range m {
+			k, v := c[2*i], c[2*i+1]
+			if k.Kind != yaml.ScalarNode || k.ShortTag() != "!!str" || k.Value != p.k || v.Value != fmt.Sprint(p.v) {
+				failures++
+				t.Errorf("YAML pair %d is %s %q: %q, the model has string key %q: %d\n%s", i, k.ShortTag(), k.Value, v.Value, p.k, p.v, yb)
+				break
+			}
 		}
 	}
 	fmt.Printf("BOUNDED name=c05-histories cases=%d failures=%d\n", cases, failures)
